@@ -1022,6 +1022,7 @@ class SSHConnection(SSHPacketHandler, asyncio.Protocol):
             'List[asyncio.Future[_GlobalRequestResult]]' = []
 
         self._local_listeners: Dict[ListenKey, SSHListener] = {}
+        self._pending_forwarders: Set[SSHForwarder] = set()
 
         self._x11_listener: Union[None, SSHX11ClientListener,
                                   SSHX11ServerListener] = None
@@ -1071,6 +1072,16 @@ class SSHConnection(SSHPacketHandler, asyncio.Protocol):
 
         return msg_bytes.decode('utf-8', self._utf8_decode_errors)
 
+    def add_pending_forwarder(self, forwarder: SSHForwarder) -> None:
+        """Remember an accepted connection which has no channel yet"""
+
+        self._pending_forwarders.add(forwarder)
+
+    def remove_pending_forwarder(self, forwarder: SSHForwarder) -> None:
+        """Forget an accepted connection which is closed or has a channel"""
+
+        self._pending_forwarders.discard(forwarder)
+
     def _cleanup(self, exc: Optional[Exception]) -> None:
         """Clean up this connection"""
 
@@ -1081,6 +1092,11 @@ class SSHConnection(SSHPacketHandler, asyncio.Protocol):
 
         for listener in list(self._local_listeners.values()):
             listener.close()
+
+        # Accepted connections which haven't opened a channel yet, such
+        # as SOCKS clients which are still sending their request
+        for forwarder in list(self._pending_forwarders):
+            forwarder.close()
 
         while self._global_request_waiters:
             self._process_global_response(MSG_REQUEST_FAILURE, 0,
